@@ -302,6 +302,10 @@ class Filer(hioing.Mixin):
                                              tailDirPath,
                                              base,
                                              name))
+            if not self._within(path, headDirPath):
+                shutil.rmtree(headDirPath)  # unused temp directory
+                raise hioing.FilerError(f"Path from {base=} {name=} not in "
+                                        f"its temp directory.")
 
             if clean and os.path.exists(path):
                 if os.path.isfile(path):
@@ -329,6 +333,9 @@ class Filer(hioing.Mixin):
                                          tailDirPath,
                                          base,
                                          name)))
+            if not self._within(path, headDirPath):
+                raise hioing.FilerError(f"Path from {base=} {name=} not in "
+                                        f"head directory {headDirPath}.")
 
             if clean and os.path.exists(path):
                 if os.path.isfile(path):
@@ -400,6 +407,18 @@ class Filer(hioing.Mixin):
                 os.chmod(path, perm)  # set dir/file permissions
 
         return path, file
+
+
+    @staticmethod
+    def _within(path, headDirPath):
+        """Returns True when path is headDirPath or inside it, False otherwise
+
+        Parameters:
+            path (str): absolute normalized path
+            headDirPath (str): head directory pathname
+        """
+        head = os.path.abspath(os.path.expanduser(headDirPath))
+        return os.path.commonpath([path, head]) == head
 
 
     def exists(self, name="", base="", headDirPath=None, clean=False,
